@@ -56,6 +56,9 @@ type Addr struct {
 	base string
 	idx  string
 	typ  types.Type // type of the stored value
+	// elem kind only: the element is a struct stored by value in the array; path selects a (nested) field of it
+	path    []int
+	elemTyp types.Type // type of the whole array element when path is non-empty
 }
 
 type LoopInfo struct {
@@ -506,6 +509,21 @@ func (vc *VC) storeStructAt(addr string, t types.Type, val string, space ...stri
 }
 
 func (vc *VC) loadAddrIn(h Heap, a *Addr) string {
+	if a.kind == "elem" {
+		et := a.typ
+		if len(a.path) > 0 {
+			et = a.elemTyp
+		}
+		es := vc.sortOf(et)
+		v := fmt.Sprintf("(select (select %s %s) %s)", vc.getCompIn(h, a.comp, "(Array Int (Array Int "+es+"))"), a.base, a.idx)
+		cur := et
+		for _, fi := range a.path {
+			f := cur.Underlying().(*types.Struct).Field(fi)
+			v = fmt.Sprintf("(%s_%s %s)", vc.structSort(cur), mangle(f.Name()), v)
+			cur = f.Type()
+		}
+		return v
+	}
 	if isStruct(a.typ) {
 		return vc.loadStructAt(h, vc.structAddr(a), a.typ, a.space)
 	}
@@ -518,7 +536,37 @@ func (vc *VC) loadAddrIn(h Heap, a *Addr) string {
 	}
 }
 
+// updPath returns the struct value v (of type t) with the field selected by path replaced by val.
+func (vc *VC) updPath(v string, t types.Type, path []int, val string) string {
+	if len(path) == 0 {
+		return val
+	}
+	st := t.Underlying().(*types.Struct)
+	s := vc.structSort(t)
+	var fs []string
+	for i := 0; i < st.NumFields(); i++ {
+		f := st.Field(i)
+		fv := fmt.Sprintf("(%s_%s %s)", s, mangle(f.Name()), v)
+		if i == path[0] {
+			fv = vc.updPath(fv, f.Type(), path[1:], val)
+		}
+		fs = append(fs, fv)
+	}
+	return fmt.Sprintf("(mk_%s %s)", s, strings.Join(fs, " "))
+}
+
 func (vc *VC) storeAddr(a *Addr, val string) {
+	if a.kind == "elem" {
+		et := a.typ
+		if len(a.path) > 0 {
+			et = a.elemTyp
+		}
+		s := "(Array Int (Array Int " + vc.sortOf(et) + "))"
+		cur := vc.getComp(a.comp, s)
+		old := fmt.Sprintf("(select (select %s %s) %s)", cur, a.base, a.idx)
+		vc.setComp(a.comp, s, fmt.Sprintf("(store %s %s (store (select %s %s) %s %s))", cur, a.base, cur, a.base, a.idx, vc.updPath(old, et, a.path, val)))
+		return
+	}
 	if isStruct(a.typ) {
 		vc.storeStructAt(vc.structAddr(a), a.typ, val, a.space)
 		return
@@ -559,9 +607,6 @@ func (vc *VC) zeroInit(r string, t types.Type, space ...string) {
 	}
 	if at, ok := t.Underlying().(*types.Array); ok {
 		es := vc.sortOf(at.Elem())
-		if isStruct(at.Elem()) {
-			return // struct arrays: fields left unconstrained (rare)
-		}
 		s := "(Array Int (Array Int " + es + "))"
 		k := elemComp(at.Elem())
 		vc.setComp(k, s, fmt.Sprintf("(store %s %s ((as const (Array Int %s)) %s))", vc.getComp(k, s), r, es, vc.zero(at.Elem())))
